@@ -48,8 +48,10 @@ class C28Trigger(Base):
         self.owner: Dict[str, dict] = {}    # member id -> latest record
         self.in_cmd = False
         self.cur_group: Set[str] = set()
+        self.cur_rec = None
         self.fact_owner: Dict[str, dict] = {}   # (kept when judgement of
         #                       the member itself stops: others depend on it)
+        self.ran: Dict[str, Set[int]] = {}  # task id -> flows it ran in
 
     # -- helpers -----------------------------------------------------------
     def valid(self, tid):
@@ -76,6 +78,35 @@ class C28Trigger(Base):
             return bool(set(b['flows']) - {int(f[0])})
         return False
 
+    def ran_in_flow_merged_upstream(self, rec, tid):
+        """Had the member run already in a flow that the trigger merged
+        with the triggered flow at an in-group ancestor (the ancestor was
+        pooled in that other flow: flows merge, and what the merged task
+        spawns is refused where it ran before in either flow)?"""
+        f = rec['flow']
+        if not (f == ['new'] or (f and f[0].isdigit())):
+            return False
+        mine = rec['ran_before'].get(tid, set())
+        seen, todo = set(), [tid]
+        while todo:
+            cur = todo.pop()
+            p, n = split_id(cur)
+            for a in group_atoms(self.gt, n, p, rec['group']):
+                par = f'{wfgen.atom_point(a, p)}/{a[1]}'
+                if par in seen:
+                    continue
+                seen.add(par)
+                todo.append(par)
+                b = rec['before'].get(par)
+                if b is None:
+                    continue
+                other = set(b['flows'])
+                if f[0].isdigit():
+                    other -= {int(f[0])}
+                if other & mine:
+                    return True
+        return False
+
     def waits_on_rereported_custom_output(self, rec, tid):
         """Does the member depend on a custom output of a group-start
         member that was re-run on its old (finished, retained) proxy?"""
@@ -100,6 +131,7 @@ class C28Trigger(Base):
         if k == 'CMD_EXEC':
             self.in_cmd = True
             self.cur_group = set()
+            self.cur_rec = None
             self.on_cmd(ev)
         elif k == 'CMD_EXEC_END':
             self.in_cmd = False
@@ -124,7 +156,19 @@ class C28Trigger(Base):
             for t in ev['tasks']:
                 if t['status'] != 'waiting':
                     continue        # passed back through preparation
+                self.ran.setdefault(t['id'], set()).update(t['flows'])
                 self.on_prep(t)
+        elif k == 'POOL_ADD' and self.in_cmd and self.cur_rec is not None \
+                and ev['task']['id'] in self.cur_group \
+                and self.cur_rec['flow'] == ['none'] \
+                and ev['task']['flows']:
+            # a flow reached the member while the command ran (the groups
+            # of one command are triggered one after another, each ending
+            # with a runahead release): the member is active in a flow
+            # when its own group is handled, so the no-flow trigger is
+            # ignored for it
+            self.n['noflow_member_spawned_by_a_flow_during_command'] += 1
+            self.cur_rec['flow_spawned'].add(ev['task']['id'])
         elif k == 'MSG_OUT':
             for rec in self.recs:
                 if ev['id'] in rec['group'] and rec['it'] <= self.drv.bus.it:
@@ -193,8 +237,10 @@ class C28Trigger(Base):
             'suspended': bool(schd.stop_mode or schd.reload_pending),
             'checked_offgroup': False, 'late_start': set(),
             'prep_flows': {}, 'fed_by_old_job': set(), 'live_flows': {},
-            'msg_facts': set(),
+            'msg_facts': set(), 'flow_spawned': set(),
+            'ran_before': {t: set(self.ran.get(t, ())) for t in group},
         }
+        self.cur_rec = rec
         for tid in sorted(group):
             p, n = split_id(tid)
             b = pool.get(tid)
@@ -339,7 +385,9 @@ class C28Trigger(Base):
                 self.n['start_member_in_limited_queue'] += 1
                 continue
             b = rec['before'][tid]
-            if rec['flow'] == ['none'] and b is not None and b['flows']:
+            if rec['flow'] == ['none'] and (
+                    b is not None and b['flows']
+                    or tid in rec['flow_spawned']):
                 continue      # active in a flow: no-flow trigger ignored
             self.n['start_checks'] += 1
             if rec['paused']:
@@ -406,6 +454,8 @@ class C28Trigger(Base):
                         if tid in rec['fed_by_old_job'] else
                         ':pooled-member-in-another-flow'
                         if self.other_flow(rec, tid) else
+                        ':ran-before-in-flow-merged-at-in-group-parent'
+                        if self.ran_in_flow_merged_upstream(rec, tid) else
                         ':rerun-custom-output-ignored'
                         if self.waits_on_rereported_custom_output(rec, tid)
                         else ''),
